@@ -14,7 +14,7 @@ def corpus():
 
 
 def generate(rng, tier):
-    for _ in range(120 if tier == 'quick' else 3000):
+    for _ in range(120 if tier == 'quick' else 12000):
         yield R.gen_case(rng, tier)
 
 
